@@ -44,6 +44,13 @@ func (h *Handler) HandleOpenDir(ctx *Context, path string) bool {
 	info, err := handle.Stat()
 	if err != nil {
 		log.WarnContext(ctx, "Stat failed", logutil.ErrorAttr(err))
+		_ = handle.Close()
+		return false
+	}
+
+	if !info.IsDir() {
+		// not a directory: nothing to enumerate, so do not keep it as current directory
+		_ = handle.Close()
 		return false
 	}
 
